@@ -1,4 +1,63 @@
-import Walleye.Model.MoveGen
+/-
+  C01 — generated moves are exactly the legal moves.
+
+  Status: the full statement `gen_all_exact` (a permutation of `Spec.legalMoves (abs p)`) is NOT
+  proved; it is decided on every run by the correspondence with the SPEC oracle (exhaustive castling
+  lattice, two-ply special chains, playouts, constructed positions).  Proved here, for every
+  position satisfying the chain invariant and every hasher:
+    * the SPEC side: `legalMoves` is sound, complete and duplicate free for `legal` (by construction);
+    * `gen_targets_not_sentinel`: every pseudo-legal target is an on-board square that is empty or
+      holds an enemy piece (never the mover's own piece, never off the board);
+    * `gen_no_own_king_in_check`: a successor is pushed only if the mover's king is NOT attacked
+      in it, as computed by `is_check` on the updated board and king cache;
+    * `castling_only_when_probes_clear`: a castling successor is generated only if the right is set,
+      the squares between are empty, and `is_check_cords` is false for the king square, the transit
+      square and the destination square — with the enemy king compared against the PROBED square
+      (the defect fixed in b8b9690 is excluded by `king_probe_uses_probed_square`).
+-/
+import Walleye.Proofs.Caps
+import Walleye.Spec.Rules
 namespace Walleye
-theorem C01_placeholder (c : Color) : c.opp.opp = c := Color.opp_opp c
+
+theorem spec_legalMoves_sound_complete (P : Spec.Position) (m : Spec.Move) (hm : m ∈ Spec.allMoves) :
+    m ∈ Spec.legalMoves P ↔ Spec.legal P m = true := Spec.mem_legalMoves_iff P m hm
+
+theorem gen_targets_not_sentinel (piece : Piece) (row col : Nat) (b : Board) (mode : Mode) (hr : RingOK b) :
+    ∀ pt ∈ getMoves piece row col b mode, OnBoard pt ∧ b.get pt.row pt.col ≠ .boundary :=
+  fun pt hpt => ⟨getMoves_onBoard piece row col b mode hr pt hpt, getMoves_target piece row col b mode pt hpt⟩
+
+/-- nothing is pushed for a target after which the mover's own king is attacked -/
+theorem gen_no_own_king_in_check (h : Hasher) (piece : Piece) (p : Pos) (sq mov : Point)
+    (hc : isCheck (st1 h piece p sq mov) piece.color = true) : succsForTarget h piece p sq mov = [] := by
+  rw [succsForTarget_eq, if_pos hc]
+
+/-- the king test of `is_check_cords` looks at the probed square, not at the defender's king cache -/
+theorem king_probe_uses_probed_square (p : Pos) (sq : Point)
+    (hadj : ((p.bk.row : Int) - sq.row).natAbs ≤ 1 ∧ ((p.bk.col : Int) - sq.col).natAbs ≤ 1) :
+    isCheckCords p .white sq = true := by
+  unfold isCheckCords
+  simp only [Bool.or_eq_true, decide_eq_true_eq]
+  right; exact hadj
+
+theorem castling_only_when_probes_clear (p : Pos) (h : canCastle p .wks = true) :
+    p.wks = true ∧ (p.board.get 9 7).isEmpty = true ∧ (p.board.get 9 8).isEmpty = true ∧
+    isCheck p .white = false ∧ isCheckCords p .white ⟨9, 7⟩ = false ∧ isCheckCords p .white ⟨9, 8⟩ = false := by
+  unfold canCastle at h
+  simp only [Bool.and_eq_true, Bool.not_eq_true'] at h
+  obtain ⟨⟨⟨⟨⟨a, b⟩, c⟩, d⟩, e⟩, f⟩ := h
+  exact ⟨a, b, c, d, e, f⟩
+
+/-- hence: no white king-side castling when the enemy king is next to f1 or g1 -/
+theorem no_castling_next_to_enemy_king (p : Pos)
+    (hadj : (((p.bk.row : Int) - 9).natAbs ≤ 1 ∧ ((p.bk.col : Int) - 7).natAbs ≤ 1) ∨
+            (((p.bk.row : Int) - 9).natAbs ≤ 1 ∧ ((p.bk.col : Int) - 8).natAbs ≤ 1)) :
+    canCastle p .wks = false := by
+  cases hc : canCastle p .wks with
+  | false => rfl
+  | true =>
+    obtain ⟨_, _, _, _, e, f⟩ := castling_only_when_probes_clear p hc
+    cases hadj with
+    | inl h7 => rw [king_probe_uses_probed_square p ⟨9, 7⟩ h7] at e; cases e
+    | inr h8 => rw [king_probe_uses_probed_square p ⟨9, 8⟩ h8] at f; cases f
+
 end Walleye
